@@ -6,6 +6,11 @@ ALL = [f"C{i:02d}" for i in range(1, 21)]
 
 # id -> (category, technique, text, note, design_ref)
 CHECKS = {
+    "C08": ("model_checking",
+            "explicit-state search over operation histories of the real populations against a multiset-of-everything-offered reference model",
+            "Greedy and Elitism: BFS over all histories of add/add_all/on_generation (12 individuals incl. +-0 and near-equal fitness, 7 batches, 3 speeds) up to depth 5/7 with states merged on observable content and 3 random-answer policies per transition. Rosomaxa: every history up to depth 3/4 after 5 canned prefixes that reach every phase. Every state is rebuilt on the real type by replaying its history; ranked/select/all/size/phase are judged in every state. Consequence: seeded solves through EvolutionConfigBuilder (every order of the calls touching the initial configuration) never return worse than the seed.",
+            "Vector example solution type; finite alphabets; the VRP-level seeded solve is part of the pragmatic family checks.",
+            "DESIGN.md section 5 C08"),
     "C18": ("exploration",
             "bounded-exhaustive enumeration of reward sequences, fitness triples and generation/fitness histories on the real selector and terminations",
             "Every reward sequence up to depth 5/7 over a 9-value alphabet (0, denormal .. 1e6) is fed to the real SlotMachine with recording and real samplers and the posterior invariants are checked after every prefix; every (initial, best, new) fitness triple over 9 scalars (incl. +-1e308, -0) and 2-objective triples is run through the real DynamicSelective with scripted operators under the virtual clock (rewards read from its telemetry); every (generation, limit), clock read and fitness history of length <= 5/6 is run through MaxGeneration/MaxTime/TargetProximity/MinVariation/Composite against independent arithmetic.",
